@@ -1,7 +1,7 @@
 (* Py/Codes.v -- the operator names and codes used by the MiniPy models of the instrumenter and of the runtime
    are the ones of the CURRENT source (regenerated tables Gen.OpTables, Gen.Dispatch). *)
 From Coq Require Import String List ZArith Bool Arith.
-From DV Require Import Base.Util Hooks.Names Hooks.Tables Py.Syntax Py.Sem Gen.OpTables Gen.Dispatch.
+From DV Require Import Base.Util Hooks.Names Hooks.Tables Py.Syntax Py.Ops Py.Sem Gen.OpTables Gen.Dispatch.
 Import ListNotations.
 Open Scope string_scope.
 Open Scope list_scope.
